@@ -213,6 +213,12 @@ func GenVTT(r *prng.R, idx int) Doc {
 	if r.Bool(0.3) {
 		b.WriteString("\xef\xbb\xbf")
 	}
+	if r.Bool(0.15) { // something before the signature line: the reader skips up to it
+		b.WriteString(r.Pick("", "\ufeff", "junk before the header", "   ") + e.s())
+		if r.Bool(0.3) {
+			b.WriteString(e.s())
+		}
+	}
 	b.WriteString("WEBVTT")
 	if r.Bool(0.3) {
 		b.WriteString(" - " + asciiSentence(r, 1, 3))
